@@ -327,6 +327,18 @@ func (ci *cindex) lastChunkRecordsInfo(src string) (res RecordsInfo, err error) 
 	return
 }
 
+func (ci *cindex) knownRecordsInfo(src string, cid chunk.Id) (res RecordsInfo, known uint32, err error) {
+	err = errors2.NotFound
+	ci.lock.Lock()
+	if sc, ok := ci.journals[src]; ok {
+		if cidx := sc.findChunkIdx(cid); cidx >= 0 {
+			res, known, err = sc[cidx].getRecordsInfo(), sc[cidx].Recs, nil
+		}
+	}
+	ci.lock.Unlock()
+	return
+}
+
 func (ci *cindex) getRecordsInfo(src string, cid chunk.Id) (res RecordsInfo, err error) {
 	err = errors2.NotFound
 	ci.lock.Lock()
